@@ -1257,6 +1257,23 @@ fn fixed_cases() -> Vec<Program> {
         ],
         &["cx0"],
     ));
+    // 6: `super.x` against `pkg.x`: what the parent module imports is not a member of it
+    out.push(mk(
+        "super.x where x is only imported by (or visible from) the parent module",
+        vec![],
+        vec![
+            ModD { ident: PKG, parent: None, items: vec![ItemD::Imports(vec![leaf(&[bb, gg])])] },
+            ModD { ident: aa, parent: Some(0), items: vec![cx(c0, 900, Block { imports: vec![], stmts: vec![
+                pr(0, PKind::Fn, &[SUPER, gg]),
+                pr(1, PKind::Fn, &[PKG, gg]),
+                pr(2, PKind::Fn, &[SUPER, PKG, bb, gg]),
+                pr(3, PKind::Fn, &[SUPER, bb, gg]),
+                pr(4, PKind::Fn, &[PKG, bb, gg]),
+            ] })] },
+            ModD { ident: bb, parent: Some(0), items: vec![f(gg, 103)] },
+        ],
+        &["cx0"],
+    ));
     out
 }
 
